@@ -78,6 +78,7 @@ simrt::Config schedConfig(const Json &s) {
     c.preempt_mean = s.getd("preempt_mean", 0);
     c.p_spurious = s.getd("p_spurious", 0);
     c.signal_policy = (int)s.geti("signal_policy", 0);
+    if (s.has("random_steps")) c.random_steps = (uint64_t)s.geti("random_steps");
     c.step_cap = (uint64_t)s.geti("step_cap", 400000);
     return c;
 }
@@ -92,6 +93,7 @@ Json genSched(Rng &r) {
     s["preempt_mean"] = r.pick<double>({0.0, 0.0, 0.0, 300.0, 3000.0, 30000.0});
     s["p_spurious"] = r.pick<double>({0.0, 0.0, 0.0, 0.02, 0.1});
     s["signal_policy"] = r.range(0, 2);
+    s["random_steps"] = 1 << 30;
     return s;
 }
 
@@ -142,7 +144,7 @@ public:
         p["sched"] = genSched(s);
         Json sh = Json::object();
         sh["lists"] = Json::from(std::vector<std::string>{});
-        sh["ints"] = Json::from(std::vector<std::string>{"budget", "jobs", "batch", "threads", "make.depth", "make.outs", "make.dims", "sched.strategy", "sched.pct_depth", "sched.signal_policy", "limit"});
+        sh["ints"] = Json::from(std::vector<std::string>{"budget", "jobs", "batch", "threads", "make.depth", "make.outs", "make.dims", "sched.random_steps", "sched.strategy", "sched.pct_depth", "sched.signal_policy", "limit"});
         Json mn = Json::object(); mn["make.dims"] = 1; mn["make.outs"] = 1; mn["budget"] = 1; mn["jobs"] = 1; mn["batch"] = 1; mn["limit"] = 1; sh["min"] = mn; p["_shrink"] = sh;
         return p;
     }
